@@ -207,6 +207,10 @@ func (fi *funcInfo) divisionFacts(ls []Lin) []Lin {
 				continue
 			}
 			cst, ok := bo.Y.(*ssa.Const)
+			if !ok && bo.Op == token.REM {
+				out = append(out, fi.remByVariable(a, bo)...)
+				continue
+			}
 			if !ok || cst.Value == nil {
 				continue
 			}
@@ -589,6 +593,7 @@ func monotoneSlots(c *Ctx) map[string]bool {
 			}
 		})
 	}
+	monotoneSlotsByAccessor(c, cand, bad) // stores through the address of the field, in helper methods (ext_y1.go)
 	out := map[string]bool{}
 	for n := range cand {
 		if !bad[n] {
